@@ -571,12 +571,117 @@ fn run_resync(c: &ResyncCase) -> Outcome {
     o
 }
 
+/// The entry points that first decide between armored and binary input (`from_reader*`): a
+/// binary stream in any legal framing must be taken as binary and give the same value as
+/// `from_bytes`.
+#[derive(Clone, Debug, Hash, Serialize, Deserialize)]
+pub struct SniffCase {
+    /// 0: a literal message of `n` data octets; 1: a transferable public key; 2: a detached signature
+    pub object: u8,
+    pub n: usize,
+    pub form: LenForm,
+}
+
+fn run_sniff(c: &SniffCase) -> Outcome {
+    use pgp::composed::{Deserializable, DetachedSignature, SignedPublicKey};
+    use pgp::ser::Serialize as _;
+    use std::io::Read as _;
+    let cert = crate::common::cert(crate::common::KeyKind::Ed25519V4, 1);
+    // the packets of the object, each re-framed in the form under test
+    let packets: Vec<(u8, Vec<u8>)> = match c.object {
+        0 => {
+            let mut lit = vec![b'b', 0, 0, 0, 0, 0];
+            lit.extend((0..c.n).map(|i| (i as u8).wrapping_mul(13)));
+            vec![(11, lit)]
+        }
+        1 => {
+            let bytes = cert.to_public_key().to_bytes().expect("ser");
+            crate::reference::codec::split_packets(&bytes).expect("split").into_iter().map(|(t, _, b)| (t, b)).collect()
+        }
+        _ => {
+            let s = DetachedSignature::sign_binary_data(crate::engine::rng(1), &cert.primary_key, &pgp::types::Password::empty(), pgp::crypto::hash::HashAlgorithm::Sha256, &b"x"[..]).expect("sign");
+            vec![(2, s.signature.to_bytes().expect("ser"))]
+        }
+    };
+    if c.form == LenForm::OldIndeterminate && packets.len() > 1 {
+        // only the last packet of a stream can have an indeterminate length
+        return Outcome::trivial("form-not-applicable");
+    }
+    let mut stream = Vec::new();
+    for (tag, body) in &packets {
+        match frame::frame(*tag, body, c.form) {
+            Some(f) => stream.extend_from_slice(&f),
+            None => return Outcome::trivial("form-not-applicable"),
+        }
+    }
+    let what = format!("{} in {:?} framing ({} octets)", ["literal message", "transferable public key", "detached signature"][c.object as usize], c.form, stream.len());
+    let mut o = Outcome::ok("same-value-through-every-entry-point");
+    match c.object {
+        0 => {
+            let read = |m: pgp::errors::Result<Message<'_>>| -> Result<Vec<u8>, String> {
+                let mut m = m.map_err(|e| e.to_string())?;
+                let mut d = Vec::new();
+                m.read_to_end(&mut d).map_err(|e| e.to_string())?;
+                Ok(d)
+            };
+            let a = read(Message::from_bytes(&stream[..]));
+            let b = read(Message::from_reader(std::io::BufReader::new(&stream[..])).map(|x| x.0));
+            if a != b {
+                o.push("C17:sniff:from_reader-differs-from-from_bytes", format!("{what}: from_bytes {:?}, from_reader {:?}", a.as_ref().map(|d| d.len()), b.as_ref().map(|d| d.len())));
+            }
+            if a.is_err() {
+                o.push("C17:sniff:legal-framing-rejected", format!("{what}: {a:?}"));
+            }
+        }
+        1 => {
+            let a = SignedPublicKey::from_bytes(&stream[..]).map_err(|e| e.to_string());
+            let b = SignedPublicKey::from_reader_single(&stream[..]).map(|x| x.0).map_err(|e| e.to_string());
+            let c2 = SignedPublicKey::from_reader_many(&stream[..]).map_err(|e| e.to_string()).and_then(|(mut it, _)| it.next().ok_or("no key".to_string())?.map_err(|e| e.to_string()));
+            if a.is_err() {
+                o.push("C17:sniff:legal-framing-rejected", format!("{what}: {:?}", a.as_ref().err()));
+            }
+            for (name, r) in [("from_reader_single", b), ("from_reader_many", c2)] {
+                if r != a {
+                    o.push(format!("C17:sniff:{name}-differs-from-from_bytes"), format!("{what}: from_bytes ok={}, {name}: {:?}", a.is_ok(), r.as_ref().err()));
+                }
+            }
+        }
+        _ => {
+            let a = DetachedSignature::from_bytes(&stream[..]).map_err(|e| e.to_string());
+            let b = DetachedSignature::from_reader_single(&stream[..]).map(|x| x.0).map_err(|e| e.to_string());
+            if a.is_err() {
+                o.push("C17:sniff:legal-framing-rejected", format!("{what}: {:?}", a.as_ref().err()));
+            }
+            if a != b {
+                o.push("C17:sniff:from_reader_single-differs-from-from_bytes", format!("{what}: from_bytes ok={}, from_reader_single {:?}", a.is_ok(), b.as_ref().err()));
+            }
+        }
+    }
+    o
+}
+
 pub fn check(ctx: &Ctx) {
     if let Err(e) = frame::self_test() {
         eprintln!("MACHINERY: framing reference self-test failed: {e}");
         std::process::exit(2);
     }
     let quick = ctx.tier == Tier::Quick;
+    // armor-or-binary sniffing entry points
+    let mut sn = Vec::new();
+    for form in FORMS {
+        for n in [0usize, 1, 185, 186, 191, 192, 250, 255, 256, 8377, 8378, 8383, 8384, 65529, 65530, 65536, 70_000] {
+            sn.push(SniffCase { object: 0, n, form });
+        }
+        sn.push(SniffCase { object: 1, n: 0, form });
+        sn.push(SniffCase { object: 2, n: 0, form });
+    }
+    ctx.run_space(
+        "armor_or_binary_entry_points",
+        true,
+        "literal messages (17 lengths on both sides of every length-class edge), a transferable public key and a detached signature, every packet re-framed in each of the 7 forms (new 1/2/5-octet, legacy 1/2/4-octet, indeterminate): Message::from_reader, from_reader_single and from_reader_many (which first decide between armor and binary) must give the same value as from_bytes, and from_bytes must accept the legal framing",
+        sn.into_par_iter(),
+        run_sniff,
+    );
     // packets broken inside, in bodies on both sides of the 8 KiB body-reader buffer
     let mut rs = Vec::new();
     for kind in 0..RESYNC_KINDS.len() as u8 {
@@ -746,6 +851,7 @@ pub fn replay(space: &str, case: &Value) -> Option<Outcome> {
         "fixed_and_indeterminate" => replay_as(case, run_fixed),
         "partial_body" => replay_as(case, run_partial),
         "broken_packets_are_skipped_whole" => replay_as(case, run_resync),
+        "armor_or_binary_entry_points" => replay_as(case, run_sniff),
         "illegal_framings" => replay_as(case, run_illegal),
         "written_streams" => replay_as(case, run_written),
         _ => None,
